@@ -93,7 +93,7 @@ def replay_model(sess, native, r):
     calls = []
     if r.get("replay_native"):
         # molecule obligations: the counterexample is a byte string; run the real decoder + every accessor on it
-        kind, ty = r["replay_native"]
+        kind, ty = r["replay_native"][:2]
         n = int(model.get("len", 0))
         buf = model.get("buf", {}) if isinstance(model.get("buf"), dict) else {}
         if n > 192:
@@ -101,6 +101,17 @@ def replay_model(sess, native, r):
         args = [ty] + [int(buf.get(i, 0)) for i in range(n)]
         got = native.call(kind, args)
         calls.append({"key": kind, "args": args, "native": got})
+        if kind == "mol_strict":
+            # the real strict decoder's verdict vs the fully expanded canonical-form specification evaluated on these bytes
+            from obligations import molecule_m as MM
+            spec = MM.canon(ty, "buf", 0, n, 5, True)
+            want = bool(ev(spec, {"buf": {i: args[1 + i] for i in range(n)}}))
+            accepted = (got == [1])
+            if got == "panic":
+                return {"status": "reproduced", "kind": "native: strict decoder panics", "calls": calls}
+            if accepted != want:
+                return {"status": "reproduced", "kind": f"native: from_slice accepted={accepted} but canonical={want}", "calls": calls}
+            return {"status": "not-reproduced-natively", "calls": calls}
         if got == "panic":
             return {"status": "reproduced", "kind": "native: real decoder + accessors panic on these bytes", "calls": calls}
         return {"status": "not-reproduced-natively", "calls": calls, "note": "verdict differs from the real code on this input"}
